@@ -520,6 +520,35 @@ def mut_element(F, S, rng, U, sub=None):
         raise Reject(type(ex).__name__)
 
 
+def mut_space_label(F, S, rng, U):
+    """The function space of one group of coefficients / arguments gets a label."""
+    terms = S.terminals((C.Coefficient, C.Argument))
+    groups = {}
+    for t in terms:
+        groups.setdefault(_space_key(t.ufl_function_space()) + (t.ufl_function_space().label(),), []).append(t)
+    if not groups:
+        raise Reject("no form argument")
+    key = _pick(rng, sorted(groups))
+    V = groups[key][0].ufl_function_space()
+    W = ufl.FunctionSpace(V.ufl_domain(), V.ufl_element(), label=(V.label() or "") + rng.choice(["a", "b", "1"]))
+    members = {id(t) for t in groups[key]}
+    cache = {}
+
+    def fn(t):
+        if id(t) in members:
+            if id(t) not in cache:
+                cache[id(t)] = C.Coefficient(W, count=t.count()) if isinstance(t, C.Coefficient) else C.Argument(W, t.number(), t.part())
+            return cache[id(t)]
+        return t
+
+    try:
+        return "label", form_substitute(F, fn)
+    except Reject:
+        raise
+    except Exception as ex:
+        raise Reject(type(ex).__name__)
+
+
 def mut_coefficient_vs_constant(F, S, rng, U):
     cs = sorted(S.terminals(C.Coefficient), key=lambda c: c.count())
     ks = sorted(S.terminals(C.Constant), key=lambda c: c.count())
@@ -845,6 +874,7 @@ EXPR_MUTATORS = {
     "restriction-side": mut_restriction_side,
     "terminal-type": mut_terminal_type,
     "element": mut_element,
+    "function-space-label": mut_space_label,
     "coefficient-vs-constant": mut_coefficient_vs_constant,
     "coefficient-identity": mut_coefficient_identity,
     "argument-number-part": mut_argument,
